@@ -8,8 +8,8 @@ const trusted = "Trusted base: go/types, go/ssa and the CHA/VTA call graphs of g
 func init() {
 	property(&Property{
 		ID:      "C07",
-		Rules:   []string{"ET-1", "ET-2", "ET-3", "XF-H", "XF-1", "XF-2", "XF-3", "NR-1", "LB-const", "SX-crash-json", "SX-crash-schema", "SX-crash-enum", "SX-crash-schema-deep", "OR-4", "NR-2"},
-		Explain: "OR-4: recursion along user-type references is guarded, so a cycle of references cannot end in a stack overflow (a fatal error no handler stops). NR-2: a caller-supplied Schema is added as a type only after a test that it has a root node, so no added type can make the checker or validators dereference nil. Decides the structural clauses of C07 on the current tree: (ET) every errors.Format call site passes exactly as many arguments as its template has verbs, every ErrorCode used bare as an error value has a zero-verb template, every declared code has a template (the last sentence of the property, decided completely over all construction sites). (SX-crash) the transition relation of each of the three byte scanners is extracted from its Next() method by abstract interpretation of the SSA and explored breadth-first over every reachable abstract state (bounded stack depth / node cap) x all 256 byte values x end of input, following look-ahead reads with every possible following byte and with the input ending inside the look-ahead window: no transition may fail with anything but a positioned library error (no index out of range, no assertion panic, no unstructured error). (XF) exception flow: the explicit panic sites of the library (classified by the static type of the value) and the implicit ones (slice/string index and slice expressions that no dominating length test or range loop guards, type assertions without ok, integer division) are propagated bottom-up over the call graph through the recover handlers, whose transfer functions (absorb / re-raise / convert to DocumentError) are derived by interpreting each handler's own code on one representative value per class; XF-1: no value escapes any exported function of the API packages, except reviewed invariant assertions and reviewed in-range arguments (one line of reason each); XF-2: the API-level handlers turn only positioned errors into returned errors; XF-3: no bare error code is returned as an error value on a path reachable from the API. NR-1: the possibly empty root node is nil-checked before use in every API-layer function. LB-const: every constant-index read of a slice/string is dominated by a length test or reviewed.",
+		Rules:   []string{"ET-1", "ET-2", "ET-3", "XF-H", "XF-1", "XF-2", "XF-3", "NR-1", "LB-const", "SX-crash-json", "SX-crash-schema", "SX-crash-enum", "SX-crash-schema-deep", "OR-4", "NR-2", "LB-param", "SX-eofspan-json", "SX-eofspan-schema", "SX-eofspan-enum"},
+		Explain: "LB-param: an index that comes in as a parameter is tested by the callee, or every caller tests what it passes. SX-eofspan-*: the events a scanner synthesises at the end of input end no further than one past the last byte. OR-4: recursion along user-type references is guarded, so a cycle of references cannot end in a stack overflow (a fatal error no handler stops). NR-2: a caller-supplied Schema is added as a type only after a test that it has a root node, so no added type can make the checker or validators dereference nil. Decides the structural clauses of C07 on the current tree: (ET) every errors.Format call site passes exactly as many arguments as its template has verbs, every ErrorCode used bare as an error value has a zero-verb template, every declared code has a template (the last sentence of the property, decided completely over all construction sites). (SX-crash) the transition relation of each of the three byte scanners is extracted from its Next() method by abstract interpretation of the SSA and explored breadth-first over every reachable abstract state (bounded stack depth / node cap) x all 256 byte values x end of input, following look-ahead reads with every possible following byte and with the input ending inside the look-ahead window: no transition may fail with anything but a positioned library error (no index out of range, no assertion panic, no unstructured error). (XF) exception flow: the explicit panic sites of the library (classified by the static type of the value) and the implicit ones (slice/string index and slice expressions that no dominating length test or range loop guards, type assertions without ok, integer division) are propagated bottom-up over the call graph through the recover handlers, whose transfer functions (absorb / re-raise / convert to DocumentError) are derived by interpreting each handler's own code on one representative value per class; XF-1: no value escapes any exported function of the API packages, except reviewed invariant assertions and reviewed in-range arguments (one line of reason each); XF-2: the API-level handlers turn only positioned errors into returned errors; XF-3: no bare error code is returned as an error value on a path reachable from the API. NR-1: the possibly empty root node is nil-checked before use in every API-layer function. LB-const: every constant-index read of a slice/string is dominated by a length test or reviewed.",
 		Assume: []string{
 			"termination of the API calls is not decided",
 			"nil dereferences other than the root-node rule, map writes to nil maps and stack exhaustion are not modelled as panic sources",
@@ -51,8 +51,8 @@ func init() {
 	})
 	property(&Property{
 		ID:      "C13",
-		Rules:   []string{"SX-nl-schema", "SX-nl-enum", "SX-sp-schema", "SX-sp-enum", "NC-1", "SX-comment-schema", "SX-nl-schema-deep", "SX-sp-schema-deep", "SX-comment-schema-deep", "T-rawkey", "T-hex", "T-escape", "SX-eol-schema", "SX-eol-enum", "SX-blank-json", "SX-blank-schema", "SX-blank-enum", "T9", "SX-text-schema", "SX-text-enum", "SX-mode-schema"},
-		Explain: "SX-mode-schema: in every reachable abstract state (deep exploration, 40,000 states) the scanner's annotation mode says multi-line exactly when the innermost open annotation on its stack is a multi-line one. SX-text-*: note and comment text is opaque — every byte that does not begin the terminator stays in the text state silently (a lone * does not end a multi-line note). T9 (const part): a const rule compares strings in decoded form, so a document that spells the same string with other escape sequences gets the same verdict. SX-blank-*: a space accepted without an event and without handing over to another step function leaves the scanner in the same abstract state, so a mere blank sets no flag (the array-has-an-item flag used to be set by a blank after [). SX-eol-schema / SX-eol-enum: in every reachable inline-comment and inline-annotation state (including the one right after the opening # or //) a line break ends the comment and is delivered as a new-line event, so an empty comment does not swallow the next line. T-rawkey / T-hex / T-escape: keys are matched in decoded form; \\uXXXX digits decode as hexadecimal in either case for all 256 byte values at each digit position; the two-character escapes decode as RFC 8259 says for all 256 bytes after the backslash. SX-comment-schema: in every reachable comment state of the schema scanner a byte either delivers no lexical event or leaves the comment, so comments are invisible to the loader (line and node counting). Over the automaton extracted from the schema scanner and the enum-rule scanner (abstract interpretation of Next(), every reachable abstract state up to the stack bound / node cap): LF and CR have identical effect in every state (verdict, events with spans, successor state), so LF, CR and CRLF spellings scan alike; space and tab have identical effect in every state outside content states (string bodies, annotation/comment text, bare rule names — listed with reasons), so indentation style does not change the scan. NC-1: every comparison of a lexeme's text with a rule name (enum, type, or, the names in the rule constructor table) is made on the unquoted text, so quoted and bare rule names are equivalent.",
+		Rules:   []string{"SX-nl-schema", "SX-nl-enum", "SX-sp-schema", "SX-sp-enum", "NC-1", "SX-comment-schema", "SX-nl-schema-deep", "SX-sp-schema-deep", "SX-comment-schema-deep", "T-rawkey", "T-hex", "T-escape", "SX-eol-schema", "SX-eol-enum", "SX-blank-json", "SX-blank-schema", "SX-blank-enum", "T9", "SX-text-schema", "SX-text-enum", "SX-mode-schema", "RAW-2"},
+		Explain: "RAW-2: no byte-for-byte comparison of two JSON tokens (a key spelled with another escape sequence denotes the same key). SX-mode-schema: in every reachable abstract state (deep exploration, 40,000 states) the scanner's annotation mode says multi-line exactly when the innermost open annotation on its stack is a multi-line one. SX-text-*: note and comment text is opaque — every byte that does not begin the terminator stays in the text state silently (a lone * does not end a multi-line note). T9 (const part): a const rule compares strings in decoded form, so a document that spells the same string with other escape sequences gets the same verdict. SX-blank-*: a space accepted without an event and without handing over to another step function leaves the scanner in the same abstract state, so a mere blank sets no flag (the array-has-an-item flag used to be set by a blank after [). SX-eol-schema / SX-eol-enum: in every reachable inline-comment and inline-annotation state (including the one right after the opening # or //) a line break ends the comment and is delivered as a new-line event, so an empty comment does not swallow the next line. T-rawkey / T-hex / T-escape: keys are matched in decoded form; \\uXXXX digits decode as hexadecimal in either case for all 256 byte values at each digit position; the two-character escapes decode as RFC 8259 says for all 256 bytes after the backslash. SX-comment-schema: in every reachable comment state of the schema scanner a byte either delivers no lexical event or leaves the comment, so comments are invisible to the loader (line and node counting). Over the automaton extracted from the schema scanner and the enum-rule scanner (abstract interpretation of Next(), every reachable abstract state up to the stack bound / node cap): LF and CR have identical effect in every state (verdict, events with spans, successor state), so LF, CR and CRLF spellings scan alike; space and tab have identical effect in every state outside content states (string bodies, annotation/comment text, bare rule names — listed with reasons), so indentation style does not change the scan. NC-1: every comparison of a lexeme's text with a rule name (enum, type, or, the names in the rule constructor table) is made on the unquoted text, so quoted and bare rule names are equivalent.",
 		Assume: []string{
 			"comment placement, inline versus multi-line annotation equivalence, quoted versus bare rule names, rule order and escape normalisation are not decided by these rules",
 			"the schema scanner's state space is explored breadth-first up to a node cap (5000 states quick)",
@@ -64,8 +64,8 @@ func init() {
 	})
 	property(&Property{
 		ID:      "C14",
-		Rules:   []string{"LEN-trim", "LEN-json", "LEN-schema", "LEN-enum", "LEN-json-deep", "LEN-schema-deep", "LEN-enum-deep", "SX-eol-schema", "SX-eol-enum", "CT-1", "RX-3"},
-		Explain: "RX-3: the regex type's Len is the pattern's length + 2, the pattern ending at the first unescaped slash (loop automaton decided for all states and bytes). CT-1: the scanners' window is the whole text — data and dataSize are set by the constructor only, from the file's Content() and its length. SX-eol-*: a trailing inline comment or note ends at its line break, so the length does not run over the next line of the enclosing text. LEN-trim reads off each Length() method's own code (abstract interpretation with Next() replaced by a staged oracle delivering symbolic lexemes) what it holds before trimming — End of the last lexeme + k, and what the end-top marker does to it — and that the trimming loop steps back over blank bytes one at a time from data[P-1]. LEN-json / LEN-schema / LEN-enum walk the product of the scanner model extracted from Next() in length mode with the RFC 8259 reference transducer in trailing mode, for every byte value in every reachable state pair up to nesting 2, carrying as ghost state where the top-level value ended (V), where the first foreign byte is (F) and the value Length() would hold (G), as offsets from the byte just consumed. Wherever the scan can stop — the end-top marker (foreign byte directly after the value, after blanks, or one byte late), or end of input — V+1 <= G <= F must hold, so that trimming lands exactly on the length of the value; a text cut short inside a value must yield an error, and a foreign byte after a complete value must not.",
+		Rules:   []string{"LEN-trim", "LEN-json", "LEN-schema", "LEN-enum", "LEN-json-deep", "LEN-schema-deep", "LEN-enum-deep", "SX-eol-schema", "SX-eol-enum", "CT-1", "RX-3", "SX-eofspan-json", "SX-eofspan-schema", "SX-eofspan-enum"},
+		Explain: "SX-eofspan-*: events synthesised at the end of input stay inside the text, so the length computed from their span does. RX-3: the regex type's Len is the pattern's length + 2, the pattern ending at the first unescaped slash (loop automaton decided for all states and bytes). CT-1: the scanners' window is the whole text — data and dataSize are set by the constructor only, from the file's Content() and its length. SX-eol-*: a trailing inline comment or note ends at its line break, so the length does not run over the next line of the enclosing text. LEN-trim reads off each Length() method's own code (abstract interpretation with Next() replaced by a staged oracle delivering symbolic lexemes) what it holds before trimming — End of the last lexeme + k, and what the end-top marker does to it — and that the trimming loop steps back over blank bytes one at a time from data[P-1]. LEN-json / LEN-schema / LEN-enum walk the product of the scanner model extracted from Next() in length mode with the RFC 8259 reference transducer in trailing mode, for every byte value in every reachable state pair up to nesting 2, carrying as ghost state where the top-level value ended (V), where the first foreign byte is (F) and the value Length() would hold (G), as offsets from the byte just consumed. Wherever the scan can stop — the end-top marker (foreign byte directly after the value, after blanks, or one byte late), or end of input — V+1 <= G <= F must hold, so that trimming lands exactly on the length of the value; a text cut short inside a value must yield an error, and a foreign byte after a complete value must not.",
 		Assume: []string{
 			"the embedded text is plain JSON (values, arrays of scalars for enums): annotations, comments, type shortcuts and other JSight-only syntax after or inside the schema are not walked by this product (annotation and comment starters are not treated as foreign bytes)",
 			"that Check accepts the prefix with the same meaning is C05/C06 for JSON (same scanner, same events); for schemas it is not decided here",
@@ -109,8 +109,8 @@ func init() {
 	const tableLevel = "Each table is a complete decision, over every valuation of its finite atoms, of one structural clause of the property on the current tree; cells the statement does not determine are don't-care. Necessary conditions of the behavioural statement, not the statement as a whole."
 	property(&Property{
 		ID:      "C01",
-		Rules:   []string{"T7", "T8", "TA", "T-object", "T-array", "T-tree", "T-list", "T-any", "T11", "FR-1", "VF-1", "T-rawkey", "T-tree-deep"},
-		Explain: "T-rawkey: a document key finds its property by its decoded text (escape sequences resolved). FR-1: no field of a long-lived object (API objects, compiled schema, constraints) and no package variable can hold a per-operation helper (validator tree, validators, example builder, collectors, checker state), so the bookkeeping of one operation cannot reach the next or a concurrent one. VF-1: a validator has no slot for other validators except its parent link: child validators are made for one value and handed to the tree. T7: the JSON-kind compatibility decision of a scalar document value against a scalar example node (same kind | integer for float | null only where nullable is present; skipped only under an enum rule), extracted from checkNotAnEnum for every document kind x example kind x presence of nullable/enum. T8: required-key registration in the compiler — a property becomes required iff it is not optional (optional absent and keys not optional by default, or optional:false); optional on a non-property is rejected; the registered key is the node's own. TA: ArrayNode.Child selects example element min(i, len-1) and rejects on an empty example array, for all orderings of i against len. T-object: the object validator per lexical event — a key removes exactly itself from the keys still owed, the object may end only when nothing is owed, a key the example names is validated against that property, an unknown key goes to key shortcuts, then additionalProperties, else is rejected at the key. T-array: an item is checked against the example element at the running index, which advances by one; array-end gives the item count to every item-count rule. T-tree: the live-candidate bookkeeping of Tree.FeedLeaves for 1..3 candidates and all per-candidate outcomes (reject iff all failed; failed ones dropped; completed ones step back to their parent; children spliced in). T-any/T11: type any swallows exactly one value by depth counting, IsOpening classifies the JSON events correctly.",
+		Rules:   []string{"T7", "T8", "TA", "T-object", "T-array", "T-tree", "T-list", "T-any", "T11", "FR-1", "VF-1", "T-rawkey", "T-tree-deep", "RAW-2", "T-null"},
+		Explain: "RAW-2: document keys are compared in decoded form with the example of a rule-less key type. T-null: the validator nullable adds next to referenced types admits null and nothing else. T-rawkey: a document key finds its property by its decoded text (escape sequences resolved). FR-1: no field of a long-lived object (API objects, compiled schema, constraints) and no package variable can hold a per-operation helper (validator tree, validators, example builder, collectors, checker state), so the bookkeeping of one operation cannot reach the next or a concurrent one. VF-1: a validator has no slot for other validators except its parent link: child validators are made for one value and handed to the tree. T7: the JSON-kind compatibility decision of a scalar document value against a scalar example node (same kind | integer for float | null only where nullable is present; skipped only under an enum rule), extracted from checkNotAnEnum for every document kind x example kind x presence of nullable/enum. T8: required-key registration in the compiler — a property becomes required iff it is not optional (optional absent and keys not optional by default, or optional:false); optional on a non-property is rejected; the registered key is the node's own. TA: ArrayNode.Child selects example element min(i, len-1) and rejects on an empty example array, for all orderings of i against len. T-object: the object validator per lexical event — a key removes exactly itself from the keys still owed, the object may end only when nothing is owed, a key the example names is validated against that property, an unknown key goes to key shortcuts, then additionalProperties, else is rejected at the key. T-array: an item is checked against the example element at the running index, which advances by one; array-end gives the item count to every item-count rule. T-tree: the live-candidate bookkeeping of Tree.FeedLeaves for 1..3 candidates and all per-candidate outcomes (reject iff all failed; failed ones dropped; completed ones step back to their parent; children spliced in). T-any/T11: type any swallows exactly one value by depth counting, IsOpening classifies the JSON events correctly.",
 		Assume: []string{
 			"each table decides one step (one lexical event, one call) for all valuations of its atoms; the composition of steps over a whole document (required-key dynamics across nested objects, duplicate keys, property order) is not decided",
 		},
@@ -208,8 +208,8 @@ func init() {
 	})
 	property(&Property{
 		ID:      "C03",
-		Rules:   []string{"T10", "T-tree", "T-list", "T-object", "T-any", "AL-1", "VIS-allof", "VF-1", "NU-1", "T-tree-deep", "T-apeq", "KS-1", "KS-2"},
-		Explain: "KS-2: the loop over the key shortcuts is left by a return only with a positive answer, so every shortcut is tried. T-apeq: two additionalProperties rules count as the same (no allOf conflict) only when mode, schema type and type name were all found equal. KS-1: matching a document key against key shortcuts does not depend on which keys are still owed, so a shortcut admits any number of keys. NU-1: anonymous or-item types are named after their own schema object, so the anonymous types of several user types cannot collide when they are hoisted into one root. VF-1: a validator has no slot for other validators except its parent link: child validators are made for one value and handed to the tree. VIS-*: the recursive walks (schema checker, allOf compiler, used-type collector) and the loops over the type table reach every child and every type — the visiting call is on every path through the loop body and the loop on every path to a normal return, the only bypasses being a failed comma-ok test and loop exhaustion. T10: the additionalProperties dispatch — rule text to mode (any/true, false, @type, a schema type name, anything else rejected) and mode to validator (any value / reject the key / kind check for object, array, scalar / the named type's validators), exhaustive over the declared modes. T-tree: union semantics of candidate validators — every live candidate receives each lexeme and a position is rejected only when every candidate failed (1..3 candidates x all outcomes). T-object: an unknown key is offered to the key shortcuts, then to additionalProperties, else rejected. T-any: additionalProperties any swallows one whole value.",
+		Rules:   []string{"T10", "T-tree", "T-list", "T-object", "T-any", "AL-1", "VIS-allof", "VF-1", "NU-1", "T-tree-deep", "T-apeq", "KS-1", "KS-2", "T-null"},
+		Explain: "T-null / T-list: nullable on a type reference adds a validator that admits null only. KS-2: the loop over the key shortcuts is left by a return only with a positive answer, so every shortcut is tried. T-apeq: two additionalProperties rules count as the same (no allOf conflict) only when mode, schema type and type name were all found equal. KS-1: matching a document key against key shortcuts does not depend on which keys are still owed, so a shortcut admits any number of keys. NU-1: anonymous or-item types are named after their own schema object, so the anonymous types of several user types cannot collide when they are hoisted into one root. VF-1: a validator has no slot for other validators except its parent link: child validators are made for one value and handed to the tree. VIS-*: the recursive walks (schema checker, allOf compiler, used-type collector) and the loops over the type table reach every child and every type — the visiting call is on every path through the loop body and the loop on every path to a normal return, the only bypasses being a failed comma-ok test and loop exhaustion. T10: the additionalProperties dispatch — rule text to mode (any/true, false, @type, a schema type name, anything else rejected) and mode to validator (any value / reject the key / kind check for object, array, scalar / the named type's validators), exhaustive over the declared modes. T-tree: union semantics of candidate validators — every live candidate receives each lexeme and a position is rejected only when every candidate failed (1..3 candidates x all outcomes). T-object: an unknown key is offered to the key shortcuts, then to additionalProperties, else rejected. T-any: additionalProperties any swallows one whole value.",
 		Assume: []string{
 			"which validators a types list expands to (transitive expansion, de-duplication by name), allOf inheritance and the matching of a key against a shortcut's string type are not decided",
 		},
